@@ -208,6 +208,7 @@ def C18(tier):
         dict(name="select_pairs", family="sort", trace="Trace_Sort", trace_constants=FIX, profile="dev", chunk=3000,
              gen=dict(count=(2500, 15000), params={"kinds": "bulkpair", "oor_den": "0"})),
         num_stage("moments_and_axis_forms", "c06/c07", (3000, 30000)),
+        num_stage("moments_overflowing_sums", "c18big", (300, 3000)),
     ]
     return dict(models=[quantile_models(tier)[k] for k in (0, 1, 3)] + [
                     dict(module="Bulk", name="MC_Bulk_vs_single",
